@@ -30,6 +30,62 @@ func c02Model(effect string) model.Model {
 	return m
 }
 
+// the same vector through a SECOND policy type selected by an EnforceContext (r2, p2, e2, m2),
+// while the default type p holds decoy rules that match the request: decision and explanation
+// must come from p2 alone
+func c02ModelCtx(effect string) model.Model {
+	text := "[request_definition]\nr = x\nr2 = x\n[policy_definition]\np = id, flag, eft\np2 = id, flag, eft\n[policy_effect]\ne = some(where (p.eft == allow))\ne2 = " + effect +
+		"\n[matchers]\nm = r.x == p.flag\nm2 = r2.x == p2.flag\n"
+	m, err := model.NewModelFromString(text)
+	if err != nil {
+		panic(err)
+	}
+	return m
+}
+
+func c02RunCtx(c *Ctx, ef int, vec []int) {
+	tag := make([]string, len(vec))
+	rules := make([][]string, len(vec))
+	for i, k := range vec {
+		l := c02Letters[k]
+		tag[i] = l.tag
+		rules[i] = []string{fmt.Sprintf("r%d", i), l.m, l.e}
+	}
+	vs := strings.Join(tag, "")
+	if vs == "" {
+		vs = "-"
+	}
+	id := fmt.Sprintf("c02ctx.%s.%s", c02Effects[ef].tag, vs)
+	c.Case(id, c02Effects[ef].tag+" "+vs)
+	c.Count(fmt.Sprintf("ctx.n=%d", len(vec)))
+	e, err := casbin.NewEnforcer(c02ModelCtx(c02Effects[ef].expr))
+	if err != nil {
+		panic(err)
+	}
+	for _, r := range [][]string{{"decoy0", "1", "deny"}, {"decoy1", "1", "allow"}, {"decoy2", "1", "deny"}} {
+		_, _ = e.AddNamedPolicy("p", r)
+	}
+	for _, r := range rules {
+		if ok, err := e.AddNamedPolicy("p2", r); !ok || err != nil {
+			panic(fmt.Sprint("AddNamedPolicy p2 ", r, ok, err))
+		}
+	}
+	ctx := casbin.NewEnforceContext("2")
+	d1, err1 := e.Enforce(ctx, "1")
+	d2, ex, err2 := e.EnforceEx(ctx, "1")
+	exi := -1
+	if len(ex) > 0 {
+		exi = -2
+		for i, r := range rules {
+			if len(ex) == 3 && r[0] == ex[0] && r[1] == ex[1] && r[2] == ex[2] {
+				exi = i
+			}
+		}
+	}
+	c.Obs(id, "enforce", fmt.Sprintf("dec=%s err=%s", B(d1), B(err1 != nil)))
+	c.Obs(id, "enforceex", fmt.Sprintf("dec=%s err=%s ex=%d", B(d2), B(err2 != nil), exi))
+}
+
 var c02Letters = []struct {
 	m   string
 	e   string
@@ -98,6 +154,9 @@ func init() {
 				vec := make([]int, n)
 				for {
 					c02Run(c, ef, vec)
+					if n <= 4 || c.Thorough() {
+						c02RunCtx(c, ef, vec)
+					}
 					i := 0
 					for i < n {
 						vec[i]++
